@@ -228,8 +228,10 @@ func (e *Exec) run() {
 		o.Goal = not(or(e.retPCs...))
 		// consistency of everything assumed along the way (contracts of callees, axioms),
 		// with the quantified facts included: "false" must not be derivable at a return
-		o2 := c.oblige("vacuity", "assumptions.consistent", or(e.retPCs...), "false", "the facts assumed on the way to a return (callee contracts, axioms) are not contradictory (unsat = vacuous proof)", e.pos(fn.Pos()))
-		o2.Expect = "consistent"
+		if len(c.assumed) > 0 || len(e.callOrd) > 0 || len(e.loops) > 0 || len(e.con.Requires) > 0 {
+			o2 := c.oblige("vacuity", "assumptions.consistent", or(e.retPCs...), "false", "the facts assumed on the way to a return (callee contracts, axioms) are not contradictory (unsat = vacuous proof)", e.pos(fn.Pos()))
+			o2.Expect = "consistent"
+		}
 	}
 }
 
